@@ -121,6 +121,8 @@ static void mc_viol(const char * sig, const char * fmt, ...) {
 /* ---- crash / hang handling -------------------------------------------------------------- */
 static volatile unsigned long long mc_wd_last = ~0ULL;
 static volatile int mc_wd_strikes = 0;
+static volatile unsigned long long mc_alive = 0;      /* bumped by long harness-internal loops (hash-table rebuilds ...) that run no case */
+static volatile double mc_wd_cpu0 = 0;
 static int mc_dying = 0;
 
 static void mc_emit_crash(const char * kind) {
@@ -147,16 +149,22 @@ static void mc_on_signal(int sig) {
     _exit(97);
 }
 
+/* Hang = the process burns 20 s of its OWN CPU time without finishing a case (a machine that is merely busy with other work
+ * must not look like a hang: the first thorough run next to other jobs reported one inside a 7.8 M state hash-table rebuild). */
+static double mc_cpu_now(void) { struct timespec ts; clock_gettime(CLOCK_PROCESS_CPUTIME_ID, &ts); return (double) ts.tv_sec + (double) ts.tv_nsec * 1e-9; }
 static void mc_on_alarm(int sig) {
+    unsigned long long now = mc_idx + mc_alive;
     (void) sig;
-    if (mc_wd_last == mc_idx) {
-        if (++mc_wd_strikes >= 4) {        /* no progress for >= 4 ticks of 5 s */
+    if (mc_wd_last == now) {
+        ++mc_wd_strikes;
+        if (mc_cpu_now() - mc_wd_cpu0 >= 20.0) {
             mc_emit_crash("hang");
             _exit(98);
         }
     } else {
-        mc_wd_last = mc_idx;
+        mc_wd_last = now;
         mc_wd_strikes = 0;
+        mc_wd_cpu0 = mc_cpu_now();
     }
 }
 
